@@ -21,11 +21,16 @@ theorem CountsSound_iff (m : CoinMap) : CountsSound m ↔ CountsOk m := Iff.rfl
 def maxDoscReward (d ds : Nat) : Nat :=
   (TIP910_WORK_FACTOR * 2 ^ d) * (TIP910_SPEED_FACTOR * 2 ^ d) * MICRO_CONVERTER / (ds ^ 2 * REWARD_DIVISOR)
 
-/-- what is assumed of the state a batch is applied to — everything but `powTotal` and
-    `rewardFits` (explicitly excluded findings) holds of states reachable from a genesis whose
-    per-denomination supply stays below 2^127.  (Until the fix for F19 there was a third excluded finding, a field
+/-- what is assumed of the state a batch is applied to — everything but `rewardFits` (an explicitly excluded
+    finding) and `powDifficulty` (a fact about the MelPoW verifier) holds of states reachable from a genesis whose
+    per-denomination supply stays below 2^127.  (Until the fix for F19 there was another excluded finding, a field
     `weights : ∀ t ∈ txs, (t.covenants.map covenantWeightFromBytes).sum ≤ U128_MAX`; `loadRelevantCoins` now
-    rejects a batch with a transaction violating it — `C09_heavy_covenants_rejected` — so it is not assumed.) -/
+    rejects a batch with a transaction violating it — `C09_heavy_covenants_rejected` — so it is not assumed.
+    Until the fix for F9 there was a field `powTotal : ∀ a b c d, env.powOk a b c d ≠ .panics` — MelPoW
+    verification, a dependency crate, panics on a proof lacking nodes it looks up; `validateDoscmint` now rejects
+    such a proof with `InvalidMelPoW` — `C09_doscmint_never_crashes_on_proof`, `C18_panicking_proof_rejected`; what
+    the old code did is recorded in `C09_old_pow_panic_crashes` — so nothing is assumed of the oracle's answer
+    `.panics` any more.) -/
 structure ApplyPre (env : Env) (s : State) (txs : List Tx) : Prop where
   counts : CountsSound s.coins
   /-- the coins the batch creates are new -/
@@ -39,8 +44,6 @@ structure ApplyPre (env : Env) (s : State) (txs : List Tx) : Prop where
   /-- the history only has entries for earlier blocks (a header is recorded when its block is sealed and
       the height advances) — otherwise a DoscMint spending a coin of the current height divides by zero -/
   historyBelow : ∀ h hdr, s.history.get h = some hdr → h < s.height
-  /-- known finding F9: MelPoW verification (dependency crate) can panic on malformed proofs — excluded -/
-  powTotal : ∀ a b c d, env.powOk a b c d ≠ .panics
   /-- `melpow::Proof::verify` returns `false` for every difficulty above 100; without this the model's
       oracle could accept a difficulty ≥ 128, for which `2u128.pow(difficulty)` overflows -/
   powDifficulty : ∀ a b c d, env.powOk a b c d ≠ .invalid → c ≤ 100
@@ -52,11 +55,12 @@ structure ApplyPre (env : Env) (s : State) (txs : List Tx) : Prop where
     microergsIter s.height * maxDoscReward d hdr.doscSpeed / MICRO_CONVERTER ≤ U128_MAX
 
 /-- **applying is total**: for every batch of arbitrary transactions the result is the new state or a
-    rejection, never a crash — in particular whatever the covenant weights of the transactions add up to (F19) -/
+    rejection, never a crash — in particular whatever the covenant weights of the transactions add up to (F19)
+    and whether or not the MelPoW verifier panics on the proof of a DoscMint (F9) -/
 theorem C09_apply_total (env : Env) (s : State) (txs : List Tx) (fb : Header) (hp : ApplyPre env s txs) :
     ∀ c, applyBatch env s txs fb ≠ .crash c :=
   applyBatch_noCrash env s txs fb ((CountsSound_iff _).mp hp.counts) hp.fresh hp.heights hp.bounded hp.speeds
-    hp.historyBelow hp.powTotal hp.powDifficulty hp.rewardFits
+    hp.historyBelow hp.powDifficulty hp.rewardFits
 
 /-- the first phases never crash, whatever the state and the transactions -/
 theorem C09_load_total (s : State) (txs : List Tx) : ∀ c, loadRelevantCoins s txs ≠ .crash c :=
@@ -218,6 +222,150 @@ theorem C09_doscmint_same_height_crash (env : Env) (s : State) (rel : Relevant) 
   simp only [if_true, hpow]
   simp [hnet, Outcome.bind, computeDoscmintSpeed]
 
+/-- **the MelPoW proof cannot crash the validation** (fix for finding F9): whatever the oracle answers for the
+    proof — `.panics` included — `validateDoscmint` returns a speed or a rejection.  The hypotheses are those of
+    the DoscMint totality lemma `validateDoscmint_noCrash`; none of them restricts the oracle's answer to
+    exclude `.panics` (`powDifficulty` and `rewardFits` only speak of answers other than `.invalid` and bound the
+    *difficulty*; for `.panics` they are not used: the transaction is rejected before any arithmetic). -/
+theorem C09_doscmint_never_crashes_on_proof (env : Env) (s : State) (rel : Relevant) (tx : Tx)
+    (hin : tx.inputs ≠ [])
+    (heights : ∀ id c, rel.get id = some c → c.height ≤ s.height)
+    (powDifficulty : ∀ a b c d, env.powOk a b c d ≠ .invalid → c ≤ 100)
+    (historyBelow : ∀ h hdr, s.history.get h = some hdr → h < s.height)
+    (speeds : ∀ h hdr, s.history.get h = some hdr → 0 < hdr.doscSpeed)
+    (rewardFits : ∀ hdr, s.history.get (s.height - 1) = some hdr → ∀ a b d t, env.powOk a b d t ≠ .invalid →
+      microergsIter s.height * maxDoscReward d hdr.doscSpeed / MICRO_CONVERTER ≤ U128_MAX) :
+    ∀ c, validateDoscmint env s rel tx ≠ .crash c :=
+  validateDoscmint_noCrash hin heights powDifficulty historyBelow speeds rewardFits
+
+/-- … and when the verifier does panic, nothing at all is needed beyond the spent coin not being from the
+    future: the outcome is a rejection (`nonexistentCoin`, `invalidMelPoW` or `malformedTx`), never a crash -/
+theorem C09_doscmint_panicking_proof_rejects (env : Env) (s : State) (rel : Relevant) (tx : Tx)
+    (hin : tx.inputs ≠ [])
+    (heights : ∀ id c, rel.get id = some c → c.height ≤ s.height)
+    (hpanics : ∀ a b c d, env.powOk a b c d = .panics) :
+    ∃ e, validateDoscmint env s rel tx = .reject e := by
+  unfold validateDoscmint
+  cases hinp : tx.inputs with
+  | nil => exact absurd hinp hin
+  | cons coinId rest =>
+    simp only
+    cases hcoin : rel.get coinId with
+    | none => exact ⟨_, rfl⟩
+    | some coin =>
+      simp only
+      rw [if_neg (Nat.not_lt.mpr (heights coinId coin hcoin))]
+      split
+      · exact ⟨_, rfl⟩
+      · cases s.history.get coin.height with
+        | none => exact ⟨_, rfl⟩
+        | some seedHdr =>
+          simp only
+          cases tx.powDifficulty with
+          | none => exact ⟨_, rfl⟩
+          | some difficulty =>
+            simp only
+            split
+            · exact ⟨_, rfl⟩
+            · rw [hpanics]; exact ⟨_, rfl⟩
+
+/-- `validate_and_get_doscmint_speed` as it was BEFORE the `fix:` commit for finding F9: the same function, but a
+    panic of `melpow::Proof::verify` propagates (the validation crashes) instead of counting as an invalid proof -/
+def validateDoscmintOld (env : Env) (s : State) (rel : Relevant) (tx : Tx) : Outcome Nat :=
+  match tx.inputs with
+  | [] => .crash "applytx.rs: expect(inputs[0])"
+  | coinId :: _ =>
+    match rel.get coinId with
+    | none => .reject .nonexistentCoin
+    | some coin =>
+      if coin.height > s.height then .crash "applytx.rs: BlockHeight subtraction underflow"
+      else if s.height - coin.height < DOSCMINT_MIN_AGE && s.network = .mainnet then .reject .invalidMelPoW
+      else match s.history.get coin.height with
+        | none => .reject .invalidMelPoW
+        | some seedHdr =>
+          match tx.powDifficulty with
+          | none => .reject .invalidMelPoW
+          | some difficulty =>
+            if !tx.powProofParses then .reject .malformedTx
+            else match env.powOk (env.hdrHash seedHdr) coinId difficulty tx.hash with
+              | .panics => .crash "melpow: Proof::verify panicked"
+              | .invalid => .reject .invalidMelPoW
+              | v =>
+                let tip910 := v = .tip910
+                (computeDoscmintSpeed tip910 difficulty s.height coin.height).bind fun mySpeed =>
+                if s.height = 0 then .crash "applytx.rs: height - 1 underflow" else
+                match s.history.get (s.height - 1) with
+                | none => .reject .invalidMelPoW
+                | some prev =>
+                  (calculateReward mySpeed prev.doscSpeed difficulty tip910).bind fun rewardReal =>
+                  (doscToErg s.height rewardReal).bind fun rewardNom =>
+                    let totalErg := (tx.totalOutputs.get .erg).getD 0
+                    if totalErg > rewardNom then .reject .invalidMelPoW else .ok mySpeed
+
+/-- the record of finding F9 — why `ApplyPre` used to carry `powTotal`: in the old code a DoscMint whose proof
+    makes the verifier panic, with every check before the proof check passing, crashed the validation (hence
+    `apply_tx_batch`, hence the node), for any difficulty `d` the transaction states … -/
+theorem C09_old_pow_panic_crashes (env : Env) (s : State) (rel : Relevant) (tx : Tx) (id : CoinID)
+    (rest : List CoinID) (coin : CoinDataHeight) (hdr : Header) (d : Nat)
+    (hnet : s.network ≠ .mainnet) (hheight : s.height = 1) (hhist : s.history = [(0, hdr)])
+    (hin : tx.inputs = id :: rest) (hrel : rel.get id = some coin) (hch : coin.height = 0)
+    (hd : tx.powDifficulty = some d) (hparse : tx.powProofParses = true)
+    (hpow : env.powOk (env.hdrHash hdr) id d tx.hash = .panics) :
+    validateDoscmintOld env s rel tx = .crash "melpow: Proof::verify panicked" := by
+  unfold validateDoscmintOld
+  rw [hin]
+  simp only [hrel, hch, hheight, hhist, AList.get, hd, hparse]
+  simp only [if_true, hpow]
+  simp [hnet]
+
+/-- … while the fixed code, on the very same input, rejects the transaction -/
+theorem C09_pow_panic_rejected (env : Env) (s : State) (rel : Relevant) (tx : Tx) (id : CoinID)
+    (rest : List CoinID) (coin : CoinDataHeight) (hdr : Header) (d : Nat)
+    (hnet : s.network ≠ .mainnet) (hheight : s.height = 1) (hhist : s.history = [(0, hdr)])
+    (hin : tx.inputs = id :: rest) (hrel : rel.get id = some coin) (hch : coin.height = 0)
+    (hd : tx.powDifficulty = some d) (hparse : tx.powProofParses = true)
+    (hpow : env.powOk (env.hdrHash hdr) id d tx.hash = .panics) :
+    validateDoscmint env s rel tx = .reject .invalidMelPoW := by
+  unfold validateDoscmint
+  rw [hin]
+  simp only [hrel, hch, hheight, hhist, AList.get, hd, hparse]
+  simp only [if_true, hpow]
+  simp [hnet]
+
+/-- the fix changes nothing else: on an oracle that never answers `.panics` (the former assumption `powTotal`)
+    the old and the new function coincide -/
+theorem C09_old_doscmint_eq (env : Env) (s : State) (rel : Relevant) (tx : Tx)
+    (hpow : ∀ a b c d, env.powOk a b c d ≠ .panics) :
+    validateDoscmintOld env s rel tx = validateDoscmint env s rel tx := by
+  unfold validateDoscmintOld validateDoscmint
+  cases tx.inputs with
+  | nil => rfl
+  | cons coinId rest =>
+    simp only
+    cases rel.get coinId with
+    | none => rfl
+    | some coin =>
+      simp only
+      split
+      · rfl
+      · split
+        · rfl
+        · cases s.history.get coin.height with
+          | none => rfl
+          | some seedHdr =>
+            simp only
+            cases tx.powDifficulty with
+            | none => rfl
+            | some difficulty =>
+              simp only
+              split
+              · rfl
+              · cases hv : env.powOk (env.hdrHash seedHdr) coinId difficulty tx.hash with
+                | panics => exact absurd hv (hpow _ _ _ _)
+                | invalid => rfl
+                | legacy => rfl
+                | tip910 => rfl
+
 /-- … while difficulty 73 under the same circumstances is fine -/
 theorem C09_reward_fits_example : microergsIter 1 * maxDoscReward 73 1000000 / MICRO_CONVERTER ≤ U128_MAX := by
   decide
@@ -231,7 +379,6 @@ theorem C09_pre_nonvacuous (env : Env) (s : State) (hc : s.coins = {}) (hh : s.h
   bounded := by rw [hc]; decide
   speeds := fun h hdr hg => by rw [hh] at hg; cases hg
   historyBelow := fun h hdr hg => by rw [hh] at hg; cases hg
-  powTotal := fun a b c d => by rw [hpow]; decide
   powDifficulty := fun a b c d h => absurd (hpow a b c d) h
   rewardFits := fun hdr _ a b d t h => absurd (hpow a b d t) h
 
@@ -252,5 +399,10 @@ end Mel
 #print axioms Mel.C09_doscmint_reward_crash
 #print axioms Mel.C09_doscmint_difficulty_crash
 #print axioms Mel.C09_doscmint_same_height_crash
+#print axioms Mel.C09_doscmint_never_crashes_on_proof
+#print axioms Mel.C09_doscmint_panicking_proof_rejects
+#print axioms Mel.C09_old_pow_panic_crashes
+#print axioms Mel.C09_pow_panic_rejected
+#print axioms Mel.C09_old_doscmint_eq
 #print axioms Mel.C09_reward_fits_example
 #print axioms Mel.C09_pre_nonvacuous
